@@ -30,7 +30,7 @@ ASSUMPTIONS = ['the private read offset of RespParser is observed indirectly: a 
                'peak heap is measured by a counting global allocator around the calls into the parser (its buffer, '
                'temporaries and returned frames)']
 
-FVH = os.path.join(runner.VERIF, 'harness', 'target', 'debug', 'fvh')
+from server import FVH
 ALPHABET = b'*$+:-012\r\nPING_#t'
 MAX_REJECTIONS = 40
 
